@@ -5,7 +5,7 @@ that property against the copy and records whether the check stayed silent (exit
 Results: benign/RESULTS.json.  The worktree is removed afterwards."""
 import json, os, subprocess, sys, time
 ROOT = os.path.dirname(os.path.dirname(os.path.abspath(__file__)))
-src = sys.argv[1]
+src = os.path.abspath(sys.argv[1])
 want = sys.argv[2:]
 names = sorted(n for n in os.listdir(src) if os.path.exists(os.path.join(src, n, 'patch.diff')))
 if want:
